@@ -48,6 +48,35 @@ pub(crate) struct IntfRemovalResult {
 pub(crate) struct DnsRecordIntf {
     pub(crate) record: DnsRecordBox,
     pub(crate) src_intf: InterfaceId,
+
+    /// Other interfaces the same record was received on as well.
+    /// (Address records are kept per interface and never use this.)
+    other_intfs: Vec<InterfaceId>,
+}
+
+impl DnsRecordIntf {
+    /// Notes that the record was also received on `intf_id`.
+    fn seen_on(&mut self, intf_id: InterfaceId) {
+        if self.src_intf != intf_id && !self.other_intfs.contains(&intf_id) {
+            self.other_intfs.push(intf_id);
+        }
+    }
+
+    /// Forgets that the record was received on `intf_id`. Returns false if it was
+    /// not received on any other interface, i.e. the record is to be removed.
+    fn forget_intf(&mut self, intf_id: &InterfaceId) -> bool {
+        self.other_intfs.retain(|i| i != intf_id);
+        if self.src_intf != *intf_id {
+            return true;
+        }
+        match self.other_intfs.pop() {
+            Some(next) => {
+                self.src_intf = next;
+                true
+            }
+            None => false,
+        }
+    }
 }
 
 /// A cache for all types of DNS records.
@@ -342,12 +371,14 @@ impl DnsCache {
                 // It is possible that this record was just updated in cache_flush
                 // processing. That's okay. We can still reset here.
                 r.record.reset_ttl(incoming.as_ref());
+                r.seen_on(intf.into());
                 (i, false)
             }
             None => {
                 let new_record = DnsRecordIntf {
                     record: incoming,
                     src_intf: intf.into(),
+                    other_intfs: Vec::new(),
                 };
                 record_vec.insert(0, new_record); // A new record.
                 (0, true)
@@ -806,8 +837,8 @@ impl DnsCache {
             let mut instances_on_intf: HashSet<String> = HashSet::new();
 
             // Remove PTR records on `intf_id` and collect their instance names.
-            records.retain(|r| {
-                if r.src_intf == intf_id {
+            records.retain_mut(|r| {
+                if !r.forget_intf(&intf_id) {
                     if let Some(dns_ptr) = r.record.any().downcast_ref::<DnsPointer>() {
                         trace!("removing PTR on intf {:?}: {:?}", intf_id, dns_ptr);
                         instances_on_intf.insert(dns_ptr.alias().to_string());
@@ -849,7 +880,7 @@ impl DnsCache {
         // Filter remaining SRV/TXT by intf_id
         self.srv.iter_mut().for_each(|(instance, records)| {
             let before = records.len();
-            records.retain(|r| r.src_intf != intf_id);
+            records.retain_mut(|r| r.forget_intf(&intf_id));
             if records.len() != before {
                 modified_instances.insert(instance.clone());
             }
@@ -858,7 +889,7 @@ impl DnsCache {
 
         self.txt.iter_mut().for_each(|(instance, records)| {
             let before = records.len();
-            records.retain(|r| r.src_intf != intf_id);
+            records.retain_mut(|r| r.forget_intf(&intf_id));
             if records.len() != before {
                 modified_instances.insert(instance.clone());
             }
@@ -893,7 +924,7 @@ impl DnsCache {
         }
 
         self.nsec.values_mut().for_each(|records| {
-            records.retain(|r| r.src_intf != intf_id);
+            records.retain_mut(|r| r.forget_intf(&intf_id));
         });
         self.nsec.retain(|_, records| !records.is_empty());
 
